@@ -605,3 +605,43 @@ Example ex_nul_run :
   option_map (map (fun r => (fst (fst r), lpos (xr (snd r)), xml_err (snd r)))) (run 3 (xml_init ex_nul)) =
   Some [(TStartTag, 2, 0); (TError, 3, 2); (TError, 3, 2)].
 Proof. vm_compute. reflexivity. Qed.
+
+(* ---- contents of tokens ------------------------------------------------------------------------------------------- *)
+(* no token contains a NUL byte; a Text token contains no '<' and is maximal: the next byte is '<', an
+   embedded NUL or the end of the input *)
+Theorem xml_token_contents_proof : forall d s ty lo hi s', reach d s -> next s = Some (ty, Some (lo, hi), s') ->
+  (forall i, lo <= i < hi -> getz d i <> 0) /\
+  (ty = TText -> (forall i, lo <= i < hi -> getz d i <> 60) /\ (getz d hi = 60 \/ getz d hi = 0)).
+Proof.
+  intros d s ty lo hi s' R Hn. pose proof (reach_inv d s R) as Inv.
+  pose proof (i_wf d s Inv) as W. pose proof (i_unread d s Inv) as Hu.
+  pose proof (next_inv _ _ _ _ W Hn) as V.
+  assert (Hty : ty <> TError).
+  { intros ->. destruct (error_facts d s _ s' Inv Hn) as (E & _). discriminate. }
+  destruct (view_token d s ty _ s' Inv V Hty) as (Hnz & Hsy).
+  remember (Some (lo, hi)) as tok eqn:Etok.
+  destruct V as [z1 Hin A W0 H0|z1 t a zf lo' hi' Hin A W0 Aw Hp T1 T2 Q|z1 ty k Hin A W0 Ak Hk|z1 Hin A Hp Hc N60|ty zf t Hin Hs Hc Hm A Hp T|Hin Hs H0];
+    try discriminate; injection Etok as <- <-.
+  - destruct A as (A1 & A2 & A3 & A4 & A5). destruct Aw as (B1 & B2 & B3 & B4 & B5 & B6 & B7).
+    rewrite A1 in *. split; [|discriminate].
+    intros i Hi. rewrite <- Hu by lia. destruct (Z.lt_ge_cases i (lpos z1)); [apply A5|apply B7]; lia.
+  - destruct A as (A1 & A2 & A3 & A4 & A5). destruct Ak as (B1 & B2 & B3 & B4 & B5).
+    rewrite A1 in *. cbn [lpos mv] in *. split.
+    + intros i Hi. rewrite <- Hu by lia. apply B5. lia.
+    + intros ->. destruct Hk as [(? & _)|[(? & _)|(? & _)]]; discriminate.
+  - destruct A as (A1 & A2 & A3 & A4 & A5). split.
+    + intros i Hi. rewrite <- Hu by lia. apply A5. lia.
+    + intros _. split.
+      * intros i Hi. rewrite <- Hu by lia. apply N60. lia.
+      * rewrite <- !Hu by lia. exact Hc.
+  - destruct A as (A1 & A2 & A3 & A4 & A5). split.
+    + intros i Hi. rewrite <- Hu by lia. apply A5. lia.
+    + intros ->. discriminate.
+Qed.
+
+Example ex_doc_no_nul : forall i, 0 <= i < len ex_doc -> getz ex_doc i <> 0.
+Proof.
+  intros i Hi. change (len ex_doc) with 16 in Hi.
+  assert (H : forallb (fun j => negb (getz ex_doc j =? 0)) (zrange 0 15) = true) by (vm_compute; reflexivity).
+  pose proof (zrange_forall _ 0 15 H i ltac:(lia)) as Hj. cbv beta in Hj. lia.
+Qed.
